@@ -210,6 +210,7 @@ fn check2(spec: &Curve2Spec, probes: &[Probe]) -> Verdict {
         Ok(None) => return Verdict::Discard("degenerate polyline"),
         Err(e) => return Verdict::fail("C01/from_points/rejected_valid", e),
     };
+    cx.label_if(b.input.len() > b.expected.len() + 4, "fine_sampled_run");
     let c = &b.curve;
     let v: Vec<Pt<2>> = c.points().to_vec();
     // construction
